@@ -56,3 +56,12 @@ Theorem C13_split_incremental_is_whole : forall (ok : list Z -> bool) k (cs : li
   nfeed_all ok (NWait [] (S k)) cs = nfeed ok (NWait [] (S k)) (List.concat cs).
 Proof. intros; apply nfeed_all_concat; apply init_stable. Qed.
 Print Assumptions C13_split_incremental_is_whole.
+
+(* "Malformed, oversized ... negotiation input only ever ends that connection attempt" -- the oversize verdict itself, read from
+   Negotiation.dataReceived by symbolic execution of the statements between the terminator search and the split (any arrangement
+   of the tests translates), is exactly: refuse iff the terminator lies beyond 4096 bytes or is absent with 4096 + 4 bytes buffered;
+   wait iff it is absent; split otherwise.  It depends on nothing but the position of the terminator and the bytes buffered. *)
+Theorem C13_header_verdict : forall eoh buflen, header_verdict eoh buflen = header_spec eoh buflen.
+Proof. exact header_verdict_spec. Qed.
+
+Print Assumptions C13_header_verdict.
